@@ -3,7 +3,7 @@
 # Applies a seeded change to a PRIVATE copy of /repo (/root/seedrun/repo), runs the property's check from a private
 # copy of /verif against it (RRE_REPO), and undoes it. /repo and /verif themselves are not touched, so this can run
 # while other work goes on; a lock serialises concurrent invocations. Replay: /root/seedrun/verif/replays/.
-ID="$1"; D="$2"; TIER="${3:-quick}"; S=/root/seedrun
+ID="$1"; D="$2"; TIER="${3:-quick}"; S="${SEEDRUN:-/root/seedrun}"
 mkdir -p $S
 exec 9>$S/.lock; flock 9
 rsync -a --delete --exclude .git --exclude work --exclude replays --exclude harness/target --exclude harness/Cargo.toml --exclude harness/Cargo.lock --exclude lean/.lake /verif/ $S/verif/
